@@ -348,3 +348,31 @@ Example C07_nonvacuous_spec_rejects :
                                                (ob_table (snd ea)) (ob_hs (snd ea)) false 0 (ob_last (snd ea)))
                          | _ => ea end) tr) = false.
 Proof. vm_compute. split; reflexivity. Qed.
+
+(* The response-processing window (RoutineHandshake: ConsumeMessageResponse ... BeginSymmetricSession): whatever
+   event [pre] (a data message under the old key, a timer's SendHandshakeInitiation) is handled inside it, a
+   session that begins is a fresh one: new initiator key current, nothing unconfirmed, no handshake pending and
+   the receive-side re-key latch CLEAR -- and the state is the one reached by handling [pre] first, so every
+   theorem above (in particular C07_initiator_rekeys_after_165_recv) speaks about what follows. *)
+Theorem C07_window_completion_starts_fresh : forall evs pre k r,
+  let s := R evs in
+  let s' := fst (step_window s pre k r) in
+  o_acc (snd (step_window s pre k r)) = true ->
+  latch s' = false /\ next s' = None /\ hs s' = None /\
+  (exists c, cur s' = Some c /\ initiator c = true /\ ridx c = r /\ id c = nsess (fst (step s pre))) /\
+  exists k', s' = R (evs ++ [pre; Respond k' r]).
+Proof. exact window_completion_starts_fresh. Qed.
+Print Assumptions C07_window_completion_starts_fresh.
+
+(* non-vacuity: an initiator re-keying at 166 s receives data under the old key inside the window (the latch is
+   set there, the initiation is suppressed by the 5 s spacing); the session begins, the latch is clear, and 166 s
+   later a receive under the NEW key starts a handshake.  A timer-forced initiation inside the window voids the
+   consumed response instead. *)
+Example C07_nonvacuous_window :
+  let s := final step init (CompleteInitiator 7 ++ [Tick (166 * sec); Initiate true]) in
+  let w := step_window s (Recv 0) 0 8 in
+  latch (fst (step s (Recv 0))) = true /\ o_init (snd (step s (Recv 0))) = false /\
+  o_acc (snd w) = true /\ o_tun (snd w) = true /\ latch (fst w) = false /\
+  map o_init (outs step (fst w) [Tick (166 * sec); Recv 1]) = [false; true] /\
+  o_acc (snd (step_window s (Initiate true) 0 8)) = false /\ o_init (snd (step_window s (Initiate true) 0 8)) = true.
+Proof. vm_compute. repeat split; reflexivity. Qed.
